@@ -66,6 +66,11 @@ def _is_repeat_push(prog, c):
 
 
 def check_c01(prog, rep, tier, cfg):
+    # C01.g — the bytes that leave the process are an encoding of the formatted text by the file's encoding (shared with C17.c): the
+    # character sequence is compared after decoding, so handing out other bytes changes it
+    import orch as _orch
+    from engine import AliasReport as _Alias
+    _orch.check_c17(prog, _Alias(rep, [("C17.c", r"ok-payload|anchor:encode", "C01.g")]), tier, cfg)
     c01a(prog, rep)
     c01b(prog, rep)
     c01c(prog, rep)
@@ -626,7 +631,7 @@ def toggle_vocabulary(prog, mod="pasfmt_core::rules::formatting_toggle::"):
                 if k and not const_args(cb, c):
                     kinds.add(k)          # a comparison whose pattern is not a literal: fed from the array
         for e in ca.get("elems", []):
-            w = e.get("str") if "str" in e else (chr(e["char"]) if "char" in e else None)
+            w = e.get("str") if "str" in e else ((e["char"] if isinstance(e["char"], str) else chr(e["char"])) if "char" in e else None)
             if w is not None:
                 for k in (kinds or {"unused"}):
                     vocab.add((w, k))
